@@ -152,10 +152,11 @@ def run(prop, tier, replay=None):
         for key, v in sorted(viol.items(), key=str):
             rp = C.write_replay(prop, "%s-%s-%s" % (key[0], key[1], abs(hash(key)) % 100000), v)
             fc = v["failing_call"]
-            print("VIOLATION property=%s replay=%s  (%s: codec %s limit %d wire %d/%d bytes reads %s carry %d -> %s n=%d %s; +%d similar)" % (
+            # (the rejected line may be a read call or another event of the stream's case, e.g. a write-side round trip)
+            print("VIOLATION property=%s replay=%s  (%s: codec %s limit %d wire %d/%d bytes %s reads %s carry %d -> %s n=%s %s; +%d similar)" % (
                 prop, rp, key[0], key[1], v["stream"]["limit"], v["stream"]["cut"],
-                sum(len(f["pre"]) + len(f["body"]) for f in v["stream"]["frames"]), fc["reads"][:6], len(fc["carry"]),
-                fc["res"], fc["n"], fc.get("err", "")[:60], v["more"]))
+                sum(len(f["pre"]) + len(f["body"]) for f in v["stream"]["frames"]), fc.get("ev", ""), fc.get("reads", [])[:6], len(fc.get("carry", [])),
+                fc.get("res"), fc.get("n"), str(fc.get("err", ""))[:60], v["more"]))
         nviol = len(viol)
         samples = []
         with open(trace) as f:
